@@ -36,3 +36,86 @@ def run_c02_tagged_values(tier, seed):
                 failures.append(dict(name="C02 tagging a conforming value raises", case=f"tagged-raise:{name}:f={f!r},i={i!r}", error=repr(e)))
     return dict(tool="cpython: real identifiers with and without tags", bound=f"{len(grid)} value pairs x 5 ways of tagging, plain and nested", cases=cases, distinct=cases,
                 failures=failures[:12])
+
+
+def run_c01_defaults_not_shared(tier, seed):
+    """C01 / C02: the default value installed for an unset parameter is a private copy: changing it in place on one instance
+    changes neither the declared default nor later instances; a default that is a configuration with a generated parameter is
+    still recognised as the default once the instance is sealed (Annotated generator form: no entry before sealing)."""
+    import tempfile, shutil
+    from pathlib import Path
+    from experimaestro.xpmutils import DirectoryContext
+    from bounded.zoo_ws import FdLearner, FdOptimizer, EqHolder, EqHolderOld, EqSub
+    failures, cases = [], 0
+
+    def ident(c):
+        return c.__xpm__.identifier.all.hex()
+
+    pristine = ident(FdLearner(epochs=3))
+    h = FdLearner(epochs=3)
+    h.optimizer.lr = 5e-2
+    cases += 3
+    if ident(FdLearner(epochs=3)) != pristine:
+        failures.append(dict(name="C01 modifying the defaulted sub-configuration of one instance changes the identifier of later instances",
+                             case="default-shared:later-instance", before=pristine, after=ident(FdLearner(epochs=3))))
+    if FdLearner.__xpmtype__.arguments["optimizer"].default.lr != 1e-3:
+        failures.append(dict(name="C01 modifying the defaulted sub-configuration of one instance changes the declared default", case="default-shared:class-default"))
+    if ident(h) == pristine or ident(h) != ident(FdLearner(epochs=3, optimizer=FdOptimizer(lr=5e-2))):
+        failures.append(dict(name="C01 an instance whose defaulted sub-configuration was modified does not get the identifier of its content", case="default-shared:modified-instance"))
+    # default with a generated parameter (no entry before sealing)
+    tmp = Path(tempfile.mkdtemp(prefix="verif-c01d-"))
+    try:
+        for mk, label in ((lambda: EqHolder(k=1), "unset"), (lambda: EqHolder(k=1, sub=EqSub(x=1)), "explicit copy")):
+            cases += 2
+            try:
+                c = mk()
+                before = ident(c)
+                c.__xpm__.seal(DirectoryContext(tmp))
+                after = ident(c)
+                old_id = ident(EqHolderOld(k=1))
+            except Exception as e:  # noqa
+                failures.append(dict(name="C01 building / sealing / identifying a configuration whose default is a configuration raises", case=f"default-generated-annotated-raise:{label}",
+                                     error=repr(e)))
+                continue
+            if after != before:
+                failures.append(dict(name="C01 identifier changes when a configuration whose defaulted parameter has a generated field is sealed (Annotated generator)",
+                                     case=f"default-generated-annotated:{label}", before=before, after=after))
+            if after != old_id:
+                failures.append(dict(name="C02 adding a defaulted parameter (configuration with a generated field) changes the identifier of a sealed configuration",
+                                     case=f"default-generated-annotated-extended:{label}"))
+    finally:
+        shutil.rmtree(tmp, ignore_errors=True)
+    return dict(tool="cpython: real identifiers", bound="2 class families", cases=cases, distinct=cases, failures=failures)
+
+
+def run_c13_falsy_objects(tier, seed):
+    """C13: a runtime object that happens to be falsy (a class defining __len__) is still the one object of its configuration: used
+    as the target of a pre-task, and across two conversions sharing one object store."""
+    from experimaestro.core.objects import ObjectStore
+    from bounded.zoo_ws import FalsyBag, FalsyLoad, FalsyHolder
+    failures, cases = [], 0
+    for items in ([], [1]):
+        bag = FalsyBag(items=list(items))
+        holder = FalsyHolder(bag=bag)
+        holder.add_pretasks(FalsyLoad(bag=bag))
+        cases += 1
+        try:
+            inst = holder.instance()
+            if getattr(inst.bag, "loaded", 0) != 1 or getattr(inst.bag, "inits", 0) != 1 or list(inst.bag.items) != list(items):
+                failures.append(dict(name="C13 a falsy runtime object is not the one initialised / reached by the pre-task", case=f"falsy:pretask:items={items}",
+                                     loaded=getattr(inst.bag, "loaded", None), inits=getattr(inst.bag, "inits", None)))
+        except Exception as e:  # noqa
+            failures.append(dict(name="C13 converting a graph with a falsy runtime object raises", case=f"falsy:pretask-raise:items={items}", error=repr(e)))
+        bag2 = FalsyBag(items=list(items))
+        h1, h2 = FalsyHolder(bag=bag2, k=1), FalsyHolder(bag=bag2, k=2)
+        store = ObjectStore()
+        cases += 1
+        try:
+            i1 = h1.instance(objects=store)
+            i2 = h2.instance(objects=store)
+            if i1.bag is not i2.bag or getattr(i1.bag, "inits", 0) != 1:
+                failures.append(dict(name="C13 a shared falsy runtime object is duplicated or initialised again by a second conversion", case=f"falsy:shared-store:items={items}",
+                                     same=i1.bag is i2.bag, inits=getattr(i1.bag, "inits", None)))
+        except Exception as e:  # noqa
+            failures.append(dict(name="C13 converting a graph with a falsy runtime object raises", case=f"falsy:store-raise:items={items}", error=repr(e)))
+    return dict(tool="cpython: real instance() conversions", bound="2 values x 2 scenarios", cases=cases, distinct=cases, failures=failures)
